@@ -765,6 +765,9 @@ func (fr *frame) execSend(st *state, v *ssa.Send) {
 	// ghost stream of sent values per channel: CHN (count) and CHV|sort (values)
 	ch := fr.val(v.Chan)
 	srt := u.sortOf(v.X.Type())
+	if fr.sweepOn() {
+		fr.oblige(st, "sendclosed", fr.anchorText(v.Pos(), "stmt"), v.Pos(), not(app("select", fc.hget(st, "G|chan.closed|Bool"), ch)), "send on closed channel")
+	}
 	nk := "G|chan.sent|Int"
 	vk := "GA|chan.vals|" + srt
 	n := app("select", fc.hget(st, nk), ch)
